@@ -1,9 +1,198 @@
 import Driver.Loop
+import Midgard.Model.Config
 
-/-! Driver for C19: placeholder until the model is written. -/
+/-!
+Driver for C19.  One *history* per line:  `c19 run op op op …` answers one token per op.
+Two configurations live in the world: 0 (`main`) and 1 (`fb`); `L:1` makes 1 the fallback of 0.
+Text fields are hex (`.` = empty), `-` is None.
+
+ mutating ops (answer `ok`, `err:<kind>`, for O also `;unused=<hex,…>`)
+  U:cfg:sec:key:val:profile:source:allownew:meta      meta  - | k=v;k=v   (v `~` = None)
+  D:cfg:sec|-:allownew:k=v,k=v                         update_from_dict
+  O:cfg:profile|-:allownew:opt,opt                     update_from_options
+  S:cfg:fromcfg:fromsec:sec|-:allownew                 update_from_config_section
+  F:cfg:allownew:casesensitive:source:text             update_from_file (text of the file)
+  P:cfg:-|[]|p,p,~                                     profiles setter
+  M:cfg:-|name                                         master_section setter
+  L:0|1                                                fallback link
+  V:cfg:k=v,k=v                                        update_vars
+ queries
+  g:cfg:key:value|-:section|-:default|-                cfg.get
+  i:cfg:name                                           cfg[name]
+  e:cfg:key:section|-                                  cfg.exists
+  s:cfg                                                cfg.sources
+  v:cfg                                                flattened view
+  p:cfg                                                cfg.profiles
+  w:cfg:width                                          cfg.as_str(width)
+  r:cfg:width                                          view of Configuration.read_from_file(written file)
+ pure
+  a:kind:value                                         entry.<kind>   kind = list|tuple|dict|bool|int
+  x:value:vars:callvars:default|-                      entry.replace(default, **callvars) with cfg vars
+-/
 namespace Driver.C19
+open Midgard.Proto Midgard.Config
+
+structure World where
+  c0 : Cfg
+  c1 : Cfg
+  linked : Bool
+
+def World.get (w : World) (i : Nat) : Cfg := if i = 0 then w.c0 else w.c1
+def World.set (w : World) (i : Nat) (c : Cfg) : World := if i = 0 then { w with c0 := c } else { w with c1 := c }
+def World.chain (w : World) (i : Nat) : List Cfg :=
+  if i = 0 then (if w.linked then [w.c0, w.c1] else [w.c0]) else [w.c1]
+
+def hx (s : String) : String := encodeHex s
+def unhx? (s : String) : Option String := decodeHex? s
+def optHex? (s : String) : Option (Option String) := if s = "-" then some none else (unhx? s).map some
+def bool? (s : String) : Option Bool := if s = "1" then some true else if s = "0" then some false else none
+def idx? (s : String) : Option Nat := if s = "0" then some 0 else if s = "1" then some 1 else none
+
+def kvs? (s : String) (sep : String) : Option (List (String × Option String)) :=
+  if s = "-" || s = "[]" then some [] else
+  (s.splitOn sep).mapM fun it =>
+    match it.splitOn "=" with
+    | [k, v] => do
+      let k ← unhx? k
+      let v ← if v = "~" then some none else (unhx? v).map some
+      pure (k, v)
+    | _ => none
+
+def kvsStr? (s : String) : Option (List (String × String)) :=
+  (kvs? s ",").map (fun l => l.map (fun (k, v) => (k, v.getD "None")))
+
+def hexList? (s : String) : Option (List String) :=
+  if s = "[]" || s = "-" then some [] else (s.splitOn ",").mapM unhx?
+
+def showErr : Err → String
+  | .missingSection => "missingSection" | .missingEntry => "missingEntry"
+  | .missingConfiguration => "missingConfiguration" | .index => "index" | .value => "value"
+  | .recursion => "recursion" | .key => "key"
+
+def showMeta (m : List (String × Option String)) : String :=
+  if m.isEmpty then "" else
+  "{" ++ ";".intercalate (m.map fun (k, v) => s!"{hx k}={(v.map hx).getD "~"}") ++ "}"
+
+def showEntry (withSource : Bool) (k : String) (e : Entry) : String :=
+  s!"{hx k}={hx e.value}" ++ (if withSource then s!"@{hx e.source}" else "") ++ showMeta e.metas
+
+def showSection (withSource : Bool) (n : String) (s : Section) : String :=
+  s!"{hx n}[" ++ ",".intercalate (s.map fun (k, e) => showEntry withSource k e) ++ "]"
+
+def showView (withSource : Bool) (secs : Sections) : String :=
+  if secs.isEmpty then "{}" else "/".intercalate (secs.map fun (n, s) => showSection withSource n s)
+
+def mutRes (e : Option Err) : String := match e with | none => "ok" | some e => s!"err:{showErr e}"
+
+/-- sort strings (for sets) -/
+def sortStrs (l : List String) : List String := (l.toArray.qsort (· < ·)).toList
+
+def step (w : World) (op : String) : Option (World × String) :=
+  match op.splitOn ":" with
+  | ["U", c, sec, key, val, prof, src, an, mt] => do
+    let i ← idx? c; let sec ← unhx? sec; let key ← unhx? key; let val ← unhx? val
+    let prof ← optHex? prof; let src ← unhx? src; let an ← bool? an; let mt ← kvs? mt ";"
+    match (w.get i).update ⟨sec, key, val, prof, src, mt, an⟩ with
+    | .ok c' => pure (w.set i c', "ok")
+    | .error e => pure (w, s!"err:{showErr e}")
+  | ["D", c, sec, an, d] => do
+    let i ← idx? c; let sec ← optHex? sec; let an ← bool? an; let d ← kvsStr? d
+    let (c', e) := (w.get i).updateFromDict d sec "dictionary" an
+    pure (w.set i c', mutRes e)
+  | ["O", c, prof, an, opts] => do
+    let i ← idx? c; let prof ← optHex? prof; let an ← bool? an; let opts ← hexList? opts
+    let (c', e, unused) := (w.get i).updateFromOptions opts prof "command line" an
+    let tail := match e with
+      | none => ";unused=" ++ showList hx (sortStrs unused)
+      | some _ => ""
+    pure (w.set i c', mutRes e ++ tail)
+  | ["S", c, fc, fsec, sec, an] => do
+    let i ← idx? c; let j ← idx? fc; let fsec ← unhx? fsec; let sec ← optHex? sec; let an ← bool? an
+    let other ← dget? (w.get j).sections fsec
+    let (c', e) := (w.get i).updateFromSection fsec other sec an
+    pure (w.set i c', mutRes e)
+  | ["F", c, an, cs, src, text] => do
+    let i ← idx? c; let an ← bool? an; let cs ← bool? cs; let src ← unhx? src; let text ← unhx? text
+    match (w.get i).updateFromText text src an cs with
+    | .error _ => pure (w, "err:ini")
+    | .ok (c', e) => pure (w.set i c', mutRes e)
+  | ["P", c, ps] => do
+    let i ← idx? c
+    let vals : Option (List Profile) ←
+      if ps = "-" then some none
+      else if ps = "[]" then some (some [])
+      else ((ps.splitOn ",").mapM (fun p => if p = "~" then some none else (unhx? p).map some)).map some
+    pure (w.set i ((w.get i).setProfiles vals), "ok")
+  | ["M", c, m] => do
+    let i ← idx? c; let m ← optHex? m
+    pure (w.set i { w.get i with master := m }, "ok")
+  | ["L", b] => do
+    let b ← bool? b
+    pure ({ w with linked := b }, "ok")
+  | ["V", c, d] => do
+    let i ← idx? c; let d ← kvsStr? d
+    pure (w.set i ((w.get i).updateVars d), "ok")
+  | ["g", c, key, val, sec, dflt] => do
+    let i ← idx? c; let key ← unhx? key; let val ← optHex? val; let sec ← optHex? sec; let dflt ← optHex? dflt
+    match get (w.chain i) key val sec dflt with
+    | .ok (k, e) => pure (w, s!"ok:{hx k}:{hx e.value}:{hx e.source}")
+    | .error e => pure (w, s!"err:{showErr e}")
+  | ["i", c, name] => do
+    let i ← idx? c; let name ← unhx? name
+    match getItem (w.chain i) name with
+    | .ok (.sect n s) => pure (w, "sect:" ++ showSection false n s)
+    | .ok (.entry k e) => pure (w, s!"entry:{hx k}:{hx e.value}")
+    | .error e => pure (w, s!"err:{showErr e}")
+  | ["e", c, key, sec] => do
+    let i ← idx? c; let key ← unhx? key; let sec ← optHex? sec
+    match cfgExists (w.chain i) key sec with
+    | .ok b => pure (w, showBool b)
+    | .error e => pure (w, s!"err:{showErr e}")
+  | ["s", c] => do
+    let i ← idx? c
+    pure (w, showList hx (sortStrs (w.get i).sources))
+  | ["v", c] => do
+    let i ← idx? c
+    pure (w, showView true (w.get i).sections)
+  | ["p", c] => do
+    let i ← idx? c
+    pure (w, showList (fun p => (p.map hx).getD "~") (w.get i).profiles)
+  | ["w", c, width] => do
+    let i ← idx? c; let width ← width.toNat?
+    pure (w, hx (asStr width 30 (w.get i).sections))
+  | ["r", c, width] => do
+    let i ← idx? c; let width ← width.toNat?
+    let text := asStr width 30 (w.get i).sections ++ "\n"
+    match (Cfg.new "reread").updateFromText text "F" true false with
+    | .error _ => pure (w, "err:ini")
+    | .ok (c', e) => pure (w, match e with | none => showView false c'.sections | some e => s!"err:{showErr e}")
+  | ["a", kind, v] => do
+    let v ← unhx? v
+    match kind with
+    | "list" => pure (w, showList hx (asList v))
+    | "tuple" => pure (w, showList hx (asList v))
+    | "dict" => pure (w, showList (fun (k, x) => s!"{hx k}={hx x}") (asDict v))
+    | "bool" => pure (w, match asBool v with | .ok b => showBool b | .error e => s!"err:{showErr e}")
+    | "int" => pure (w, match asInt v with | .ok n => toString n | .error e => s!"err:{showErr e}")
+    | _ => none
+  | ["x", v, vars, callvars, dflt] => do
+    let v ← unhx? v; let vars ← kvsStr? vars; let callvars ← kvsStr? callvars; let dflt ← optHex? dflt
+    match entryReplace vars callvars dflt v with
+    | .ok s => pure (w, "ok:" ++ hx s)
+    | .error .recursion => pure (w, "err:recursion")
+    | .error .unsupportedSpec => pure (w, "unsupported-spec")
+  | _ => none
+
+def runOps (w : World) : List String → List String → Option (List String)
+  | [], acc => some acc.reverse
+  | op :: t, acc =>
+    match step w op with
+    | none => none
+    | some (w', out) => runOps w' t (out :: acc)
 
 def handle : List String → Option String
+  | "c19" :: "run" :: ops =>
+    (runOps ⟨Cfg.new "main", Cfg.new "fb", false⟩ ops []).map (fun outs => " ".intercalate outs)
   | _ => none
 
 end Driver.C19
